@@ -393,12 +393,15 @@ end Banyan.C04
 namespace Banyan.C04
 open Banyan.FS
 
+theorem bool_false_of_ne_true {b : Bool} (h : b = true → False) : b = false := by
+  cases b <;> simp at h ⊢
+
 /-- under `TreeOK`, what is on the delete list -/
-theorem delName_treeOK {t : Tree} {live : Nat} {ids : List Nat} {bat : Nat → List Nat}
+theorem delName_treeOK {t : Tree} {live : Nat} {ids : List Nat} {bat : Nat → List Nat} (fixed : Bool)
     (h : TreeOK t live ids bat) (n : Name) :
-    delName true t n = true ↔
+    delName fixed t n = true ↔
       (∃ id, n = .part id ∧ isDir t [n] = true ∧ validMeta t id = false) ∨
-      (∃ e, n = .tmp (.snp e) ∧ exists_ t [n] = true) := by
+      (fixed = true ∧ ∃ e, n = .tmp (.snp e) ∧ exists_ t [n] = true) := by
   unfold delName
   constructor
   · intro hd
@@ -411,8 +414,13 @@ theorem delName_treeOK {t : Tree} {live : Nat} {ids : List Nat} {bat : Nat → L
         obtain ⟨c, hc⟩ := (isFile_iff t _).1 hf
         simp [isDir, hc]
       have := hd.2; simp [toDelete, hnd] at this
-    · right; exact ⟨e, rfl, hd.1⟩
-  · rintro (⟨id, rfl, hdir, hv⟩ | ⟨e, rfl, hex⟩)
+    · right
+      have hnd : isDir t [Name.tmp (Name.snp e)] = false := by
+        obtain ⟨c, hc⟩ := (isFile_iff t _).1 hf
+        simp [isDir, hc]
+      have := hd.2; simp [toDelete, hnd] at this
+      exact ⟨this, e, rfl, hd.1⟩
+  · rintro (⟨id, rfl, hdir, hv⟩ | ⟨hfx, e, rfl, hex⟩)
     · have hex : exists_ t [Name.part id] = true := (exists_iff t _).2 ⟨_, (isDir_iff t _).1 hdir⟩
       simp [hex, toDelete, hdir, hv]
     · rcases h.rootShape _ hex with ⟨id, hh, _⟩ | ⟨e', hh, _⟩ | ⟨e', _, hf⟩
@@ -421,7 +429,7 @@ theorem delName_treeOK {t : Tree} {live : Nat} {ids : List Nat} {bat : Nat → L
       · have hnd : isDir t [Name.tmp (Name.snp e)] = false := by
           obtain ⟨c, hc⟩ := (isFile_iff t _).1 hf
           simp [isDir, hc]
-        simp [hex, toDelete, hnd]
+        simp [hex, toDelete, hnd, hfx]
 
 /-- removing a list of root names -/
 theorem get_rmNames (t : Tree) (ns : List Name) (n : Name) (r : Path) :
@@ -444,12 +452,13 @@ end Banyan.C04
 namespace Banyan.C04
 open Banyan.FS
 
-theorem recover_treeOK {t : Tree} {live : Nat} {ids : List Nat} {bat : Nat → List Nat}
+/-- `initTSTable` (as written: `fixed = false`; with the F14 repair: `fixed = true`) on a crash tree -/
+theorem recoverWith_treeOK (fixed : Bool) {t : Tree} {live : Nat} {ids : List Nat} {bat : Nat → List Nat}
     (h : TreeOK t live ids bat) :
-    ∃ r, recover t = .ok r ∧
+    ∃ r, recoverWith fixed t = .ok r ∧
       r.parts = (served t ids).map (fun id => (id, bat id)) ∧
       r.epoch = (if (served t ids).isEmpty then none else some live) ∧
-      PartsComplete r ∧ NoLeftovers (some live) r := by
+      PartsComplete r ∧ (fixed = true → NoLeftovers (some live) r) := by
   -- the newest manifest
   have hlive : Map.get t [.snp live] = some (.file (encList ids)) := (readFile_some_iff t _ _).1 h.manifest
   have hliveEx : exists_ t [.snp live] = true := (exists_iff t _).2 ⟨_, hlive⟩
@@ -460,9 +469,9 @@ theorem recover_treeOK {t : Tree} {live : Nat} {ids : List Nat} {bat : Nat → L
     | nil => rw [hc] at this; simp at this
     | cons a l => rfl
   -- names
-  obtain ⟨S, hS⟩ : ∃ S, S = scan true t := ⟨_, rfl⟩
+  obtain ⟨S, hS⟩ : ∃ S, S = scan fixed t := ⟨_, rfl⟩
   obtain ⟨t1, ht1⟩ : ∃ t1, t1 = rmMany t (S.del.map (fun n => [n])) := ⟨_, rfl⟩
-  have hget1 : ∀ n r, Map.get t1 (n :: r) = if delName true t n then none else Map.get t (n :: r) := by
+  have hget1 : ∀ n r, Map.get t1 (n :: r) = if delName fixed t n then none else Map.get t (n :: r) := by
     intro n r; rw [ht1, hS, get_after_del]
   have hSparts : S.parts = (children t []).filterMap (partOf t) := by rw [hS]; rfl
   have hSsnaps : S.snaps = (children t []).filterMap (snapOf t) := by rw [hS]; rfl
@@ -472,41 +481,45 @@ theorem recover_treeOK {t : Tree} {live : Nat} {ids : List Nat} {bat : Nat → L
   have hmemP : ∀ id, id ∈ sortAsc S.parts ↔ isDir t [.part id] = true ∧ validMeta t id = true := by
     intro id; rw [mem_sortAsc, hSparts, mem_scan_parts]
   -- valid parts and manifests are not on the delete list
-  have hpartKeep : ∀ id, validMeta t id = true → delName true t (.part id) = false := by
+  have hpartKeep : ∀ id, validMeta t id = true → delName fixed t (.part id) = false := by
     intro id hv
-    cases hd : delName true t (.part id) with
+    cases hd : delName fixed t (.part id) with
     | false => rfl
     | true =>
-      rcases (delName_treeOK h _).1 hd with ⟨i, hi, _, hvi⟩ | ⟨e, he, _⟩
+      rcases (delName_treeOK fixed h _).1 hd with ⟨i, hi, _, hvi⟩ | ⟨_, e, he, _⟩
       · cases hi; rw [hv] at hvi; cases hvi
       · cases he
-  have hsnpKeep : ∀ e, delName true t (.snp e) = false := by
+  have hsnpKeep : ∀ e, delName fixed t (.snp e) = false := by
     intro e
-    cases hd : delName true t (.snp e) with
+    cases hd : delName fixed t (.snp e) with
     | false => rfl
     | true =>
-      rcases (delName_treeOK h _).1 hd with ⟨i, hi, _, _⟩ | ⟨e', he, _⟩
+      rcases (delName_treeOK fixed h _).1 hd with ⟨i, hi, _, _⟩ | ⟨_, e', he, _⟩
       · cases hi
       · cases he
   -- a surviving root entry that is not deleted is a valid part or a manifest
-  have hrootClass : ∀ n, exists_ t [n] = true → delName true t n = false →
-      (∃ id, n = .part id ∧ id ∈ sortAsc S.parts) ∨ (∃ e, n = .snp e ∧ e ∈ S.snaps) := by
+  have hrootClass : ∀ n, exists_ t [n] = true → delName fixed t n = false →
+      (∃ id, n = .part id ∧ id ∈ sortAsc S.parts) ∨ (∃ e, n = .snp e ∧ e ∈ S.snaps) ∨
+      (fixed = false ∧ ∃ e, n = .tmp (.snp e)) := by
     intro n hex hnd
     rcases h.rootShape n hex with ⟨id, rfl, hdir⟩ | ⟨e, rfl, hf⟩ | ⟨e, rfl, hf⟩
     · left; refine ⟨id, rfl, (hmemP id).2 ⟨hdir, ?_⟩⟩
       cases hv : validMeta t id with
       | true => rfl
       | false =>
-        have := (delName_treeOK h (.part id)).2 (Or.inl ⟨id, rfl, hdir, hv⟩)
+        have := (delName_treeOK fixed h (.part id)).2 (Or.inl ⟨id, rfl, hdir, hv⟩)
         rw [hnd] at this; cases this
-    · right; refine ⟨e, rfl, ?_⟩
+    · right; left; refine ⟨e, rfl, ?_⟩
       rw [hSsnaps, mem_scan_snaps]
       obtain ⟨c, hc⟩ := (isFile_iff t _).1 hf
       exact ⟨hex, by simp [isDir, hc]⟩
-    · exfalso
-      have := (delName_treeOK h (.tmp (.snp e))).2 (Or.inr ⟨e, rfl, hex⟩)
+    · right; right
+      refine ⟨?_, e, rfl⟩
+      apply bool_false_of_ne_true
+      intro hfx
+      have := (delName_treeOK fixed h (.tmp (.snp e))).2 (Or.inr ⟨hfx, e, rfl, hex⟩)
       rw [hnd] at this; cases this
-  unfold recover recoverWith
+  unfold recoverWith
   rw [if_neg (by simp [hne])]
   simp only []
   rw [← hS, ← ht1]
@@ -527,32 +540,35 @@ theorem recover_treeOK {t : Tree} {live : Nat} {ids : List Nat} {bat : Nat → L
           (S.snaps.map Name.snp ++ (sortAsc S.parts).map Name.part).map (fun x => [x]) := by
         simp [List.map_append, List.map_map, Function.comp_def]
       rw [this, get_rmNames]
-    have hrootNone : ∀ n, exists_ (rmMany t1 (S.snaps.map (fun e => [Name.snp e]) ++
-          (sortAsc S.parts).map (fun id => [Name.part id]))) [n] = false := by
-      intro n
-      cases hex : exists_ (rmMany t1 (S.snaps.map (fun e => [Name.snp e]) ++
-          (sortAsc S.parts).map (fun id => [Name.part id]))) [n] with
-      | false => rfl
-      | true =>
-        exfalso
-        obtain ⟨v, hv⟩ := (exists_iff _ _).1 hex
-        rw [hfinal] at hv
-        by_cases hmem : n ∈ S.snaps.map Name.snp ++ (sortAsc S.parts).map Name.part
-        · simp [hmem] at hv
-        · simp only [hmem, if_false] at hv
-          rw [hget1] at hv
-          cases hd : delName true t n with
-          | true => simp [hd] at hv
-          | false =>
-            simp only [hd] at hv
-            rcases hrootClass n ((exists_iff t _).2 ⟨v, by simpa using hv⟩) hd with ⟨id, rfl, hid⟩ | ⟨e, rfl, he⟩
-            · rw [hPe] at hid; simp at hid
-            · exact hmem (List.mem_append_left _ (List.mem_map.2 ⟨e, he, rfl⟩))
     refine ⟨_, rfl, ?_, ?_, ?_, ?_⟩
     · simp [hserved]
     · simp [hserved]
     · intro p hp; simp at hp
-    · refine ⟨?_, ?_, ?_⟩
+    · intro hfix
+      have hrootNone : ∀ n, exists_ (rmMany t1 (S.snaps.map (fun e => [Name.snp e]) ++
+            (sortAsc S.parts).map (fun id => [Name.part id]))) [n] = false := by
+        intro n
+        cases hex : exists_ (rmMany t1 (S.snaps.map (fun e => [Name.snp e]) ++
+            (sortAsc S.parts).map (fun id => [Name.part id]))) [n] with
+        | false => rfl
+        | true =>
+          exfalso
+          obtain ⟨v, hv⟩ := (exists_iff _ _).1 hex
+          rw [hfinal] at hv
+          by_cases hmem : n ∈ S.snaps.map Name.snp ++ (sortAsc S.parts).map Name.part
+          · simp [hmem] at hv
+          · simp only [hmem, if_false] at hv
+            rw [hget1] at hv
+            cases hd : delName fixed t n with
+            | true => simp [hd] at hv
+            | false =>
+              simp only [hd] at hv
+              rcases hrootClass n ((exists_iff t _).2 ⟨v, by simpa using hv⟩) hd with
+                ⟨id, rfl, hid⟩ | ⟨e, rfl, he⟩ | ⟨hff, _⟩
+              · rw [hPe] at hid; simp at hid
+              · exact hmem (List.mem_append_left _ (List.mem_map.2 ⟨e, he, rfl⟩))
+              · rw [hfix] at hff; cases hff
+      refine ⟨?_, ?_, ?_⟩
       · intro q hq
         obtain ⟨v, hv⟩ := (exists_iff _ _).1 hq
         rcases get_rmMany_none_or t1 _ q with h1 | h1
@@ -595,7 +611,8 @@ theorem recover_treeOK {t : Tree} {live : Nat} {ids : List Nat} {bat : Nat → L
     rw [hrev]
     simp only [loadFirst, loadSnapshot_ok t1 e0 ids (sortAsc S.parts) bat hm1 hc1, if_true, List.nil_append]
     -- the final tree
-    obtain ⟨stale, hstale⟩ : ∃ st, st = S.snaps.filter (fun x => decide (x < e0)) := ⟨_, rfl⟩
+    obtain ⟨stale, hstale⟩ : ∃ st, st = (if fixed = true then S.snaps.filter (fun x => decide (x < e0)) else []) :=
+      ⟨_, rfl⟩
     rw [← hstale]
     have hkeep : (sortAsc S.parts).filter (fun id => ids.contains id) = served t ids := by
       unfold served; rw [hSparts]
@@ -610,7 +627,7 @@ theorem recover_treeOK {t : Tree} {live : Nat} {ids : List Nat} {bat : Nat → L
       rw [hfin, this, get_rmNames]
     -- every entry of the final tree is an entry of t, with a surviving root name
     have hsub : ∀ n r v, Map.get fin (n :: r) = some v →
-        Map.get t (n :: r) = some v ∧ n ∉ stale.map Name.snp ∧ delName true t n = false ∧
+        Map.get t (n :: r) = some v ∧ n ∉ stale.map Name.snp ∧ delName fixed t n = false ∧
         (∀ id, n = .part id → id ∈ ids ∨ id ∉ sortAsc S.parts) := by
       intro n r v hv
       rw [hfinRoot] at hv
@@ -631,7 +648,7 @@ theorem recover_treeOK {t : Tree} {live : Nat} {ids : List Nat} {bat : Nat → L
           · rw [if_pos horph] at hv; cases hv
           · rw [if_neg horph] at hv
             rw [hget1] at hv
-            cases hd : delName true t n with
+            cases hd : delName fixed t n with
             | true => simp [hd] at hv
             | false =>
               simp only [hd] at hv
@@ -644,7 +661,7 @@ theorem recover_treeOK {t : Tree} {live : Nat} {ids : List Nat} {bat : Nat → L
                 apply horph
                 exact List.mem_map.2 ⟨id, by simp [List.mem_filter, hPm, hin], rfl⟩
     -- conversely, surviving names keep their non-tmp entries
-    have hkeepEntry : ∀ n r, n ∉ stale.map Name.snp → delName true t n = false →
+    have hkeepEntry : ∀ n r, n ∉ stale.map Name.snp → delName fixed t n = false →
         (∀ id, n = .part id → id ∈ ids) → (∀ i m, n :: r ≠ [.part i, .tmp m]) →
         Map.get fin (n :: r) = Map.get t (n :: r) := by
       intro n r hst hd hpart hnt
@@ -687,7 +704,8 @@ theorem recover_treeOK {t : Tree} {live : Nat} {ids : List Nat} {bat : Nat → L
         rw [pfile, readFile_congr (hkeepEntry (.part id) [.pf f] hnst (hpartKeep id hv)
           (by intro i hi; cases hi; exact hidI) (by intro i m; simp))]
         exact h.complete id hidI hdir hv f
-    · show NoLeftovers (some e0) ⟨_, _, fin⟩
+    · intro hfix
+      show NoLeftovers (some e0) ⟨_, _, fin⟩
       refine ⟨?_, ?_, ?_⟩
       · intro q hq
         obtain ⟨v, hv⟩ := (exists_iff _ _).1 hq
@@ -697,7 +715,9 @@ theorem recover_treeOK {t : Tree} {live : Nat} {ids : List Nat} {bat : Nat → L
       · intro n hn
         obtain ⟨v, hv⟩ := (exists_iff _ _).1 hn
         obtain ⟨hvt, hst, hd, hpart⟩ := hsub n [] v hv
-        rcases hrootClass n ((exists_iff t _).2 ⟨v, hvt⟩) hd with ⟨id, rfl, hid⟩ | ⟨e, rfl, he⟩
+        rcases hrootClass n ((exists_iff t _).2 ⟨v, hvt⟩) hd with ⟨id, rfl, hid⟩ | ⟨e, rfl, he⟩ | ⟨hff, _⟩
+        rotate_left 2
+        · rw [hfix] at hff; cases hff
         · right
           rcases hpart id rfl with hin | hnin
           · exact ⟨(id, bat id), by simp only [hkeep, List.mem_map]; exact ⟨id, (hservedMem id).2 ⟨hid, hin⟩, rfl⟩, rfl⟩
@@ -707,7 +727,7 @@ theorem recover_treeOK {t : Tree} {live : Nat} {ids : List Nat} {bat : Nat → L
           have hle := hsnapLe e he
           have : ¬ e < e0 := by
             intro hlt; apply hst
-            exact List.mem_map.2 ⟨e, by rw [hstale]; simp [List.mem_filter, he, hlt], rfl⟩
+            exact List.mem_map.2 ⟨e, by rw [hstale, if_pos hfix]; simp [List.mem_filter, he, hlt], rfl⟩
           have : e = e0 := by omega
           rw [this]
       · intro id n hdir hex
@@ -717,8 +737,9 @@ theorem recover_treeOK {t : Tree} {live : Nat} {ids : List Nat} {bat : Nat → L
         obtain ⟨hdt, _, hdd, hpart'⟩ := hsub (.part id) [] _ hdirv
         -- the part is served
         have hidP : id ∈ sortAsc S.parts := by
-          rcases hrootClass (.part id) ((exists_iff t _).2 ⟨_, hdt⟩) hdd with ⟨i, hi, hiP⟩ | ⟨e, he, _⟩
+          rcases hrootClass (.part id) ((exists_iff t _).2 ⟨_, hdt⟩) hdd with ⟨i, hi, hiP⟩ | ⟨e, he, _⟩ | ⟨_, e, he⟩
           · cases hi; exact hiP
+          · cases he
           · cases he
         have hidI : id ∈ ids := by
           rcases hpart' id rfl with hh | hh
@@ -759,7 +780,7 @@ theorem recover_treeOK {t : Tree} {live : Nat} {ids : List Nat} {bat : Nat → L
               · rw [if_pos horph] at hv'; cases hv'
               · rw [if_neg horph] at hv'
                 rw [hget1] at hv'
-                cases hd' : delName true t (Name.part id) with
+                cases hd' : delName fixed t (Name.part id) with
                 | true => simp [hd'] at hv'
                 | false =>
                   simp only [hd'] at hv'
@@ -775,12 +796,21 @@ end Banyan.C04
 namespace Banyan.C04
 open Banyan.FS
 
-theorem recover_treeOK0 {t : Tree} (h : TreeOK0 t) :
-    ∃ r, recover t = .ok r ∧ r.parts = [] ∧ r.epoch = none ∧ NoLeftovers none r := by
-  unfold recover recoverWith
+theorem recover_treeOK {t : Tree} {live : Nat} {ids : List Nat} {bat : Nat → List Nat}
+    (h : TreeOK t live ids bat) :
+    ∃ r, recover t = .ok r ∧
+      r.parts = (served t ids).map (fun id => (id, bat id)) ∧
+      r.epoch = (if (served t ids).isEmpty then none else some live) ∧
+      PartsComplete r ∧ NoLeftovers (some live) r := by
+  obtain ⟨r, h1, h2, h3, h4, h5⟩ := recoverWith_treeOK true h
+  exact ⟨r, h1, h2, h3, h4, h5 rfl⟩
+
+theorem recoverWith_treeOK0 (fixed : Bool) {t : Tree} (h : TreeOK0 t) :
+    ∃ r, recoverWith fixed t = .ok r ∧ r.parts = [] ∧ r.epoch = none ∧ (fixed = true → NoLeftovers none r) := by
+  unfold recoverWith
   by_cases hne : (children t []).isEmpty = true
   · rw [if_pos hne]
-    refine ⟨_, rfl, rfl, rfl, ?_, ?_, ?_⟩
+    refine ⟨_, rfl, rfl, rfl, fun _ => ⟨?_, ?_, ?_⟩⟩
     · exact h.depth
     · intro n hn
       have := (mem_children_root t n).2 hn
@@ -790,10 +820,10 @@ theorem recover_treeOK0 {t : Tree} (h : TreeOK0 t) :
       rw [List.isEmpty_iff.1 hne] at this; simp at this
   · rw [if_neg hne]
     simp only []
-    obtain ⟨S, hS⟩ : ∃ S, S = scan true t := ⟨_, rfl⟩
+    obtain ⟨S, hS⟩ : ∃ S, S = scan fixed t := ⟨_, rfl⟩
     obtain ⟨t1, ht1⟩ : ∃ t1, t1 = rmMany t (S.del.map (fun n => [n])) := ⟨_, rfl⟩
     rw [← hS, ← ht1]
-    have hget1 : ∀ n r, Map.get t1 (n :: r) = if delName true t n then none else Map.get t (n :: r) := by
+    have hget1 : ∀ n r, Map.get t1 (n :: r) = if delName fixed t n then none else Map.get t (n :: r) := by
       intro n r; rw [ht1, hS, get_after_del]
     have hSparts : S.parts = (children t []).filterMap (partOf t) := by rw [hS]; rfl
     have hSsnaps : S.snaps = (children t []).filterMap (snapOf t) := by rw [hS]; rfl
@@ -814,6 +844,8 @@ theorem recover_treeOK0 {t : Tree} (h : TreeOK0 t) :
           (S.snaps.map Name.snp ++ (sortAsc S.parts).map Name.part).map (fun x => [x]) := by
         simp [List.map_append, List.map_map, Function.comp_def]
       rw [this, get_rmNames]
+    refine ⟨_, rfl, rfl, rfl, ?_⟩
+    intro hfix
     have hrootNone : ∀ n, exists_ (rmMany t1 (S.snaps.map (fun e => [Name.snp e]) ++
           (sortAsc S.parts).map (fun id => [Name.part id]))) [n] = false := by
       intro n
@@ -827,7 +859,7 @@ theorem recover_treeOK0 {t : Tree} (h : TreeOK0 t) :
         by_cases hmem : n ∈ S.snaps.map Name.snp ++ (sortAsc S.parts).map Name.part
         · rw [if_pos hmem] at hv; cases hv
         · rw [if_neg hmem, hget1] at hv
-          cases hd : delName true t n with
+          cases hd : delName fixed t n with
           | true => simp [hd] at hv
           | false =>
             simp only [hd] at hv
@@ -840,14 +872,14 @@ theorem recover_treeOK0 {t : Tree} (h : TreeOK0 t) :
                 apply List.mem_append_right
                 exact List.mem_map.2 ⟨id, (mem_sortAsc _ _).2 (by rw [hSparts, mem_scan_parts]; exact ⟨hdir, hvm⟩), rfl⟩
               | false =>
-                have : delName true t (.part id) = true := by simp [delName, hex', toDelete, hdir, hvm]
+                have : delName fixed t (.part id) = true := by simp [delName, hex', toDelete, hdir, hvm]
                 rw [hd] at this; cases this
             · have hnd : isDir t [Name.tmp (Name.snp e)] = false := by
                 obtain ⟨c, hc⟩ := (isFile_iff t _).1 hf
                 simp [isDir, hc]
-              have : delName true t (.tmp (.snp e)) = true := by simp [delName, hex', toDelete, hnd]
+              have : delName fixed t (.tmp (.snp e)) = true := by simp [delName, hex', toDelete, hnd, hfix]
               rw [hd] at this; cases this
-    refine ⟨_, rfl, rfl, rfl, ?_, ?_, ?_⟩
+    refine ⟨?_, ?_, ?_⟩
     · intro q hq
       obtain ⟨v, hv⟩ := (exists_iff _ _).1 hq
       rcases get_rmMany_none_or t1 _ q with h1 | h1
@@ -860,5 +892,10 @@ theorem recover_treeOK0 {t : Tree} (h : TreeOK0 t) :
     · intro id n hdir _
       have := hrootNone (.part id)
       rw [(exists_iff _ _).2 ⟨_, (isDir_iff _ _).1 hdir⟩] at this; cases this
+
+theorem recover_treeOK0 {t : Tree} (h : TreeOK0 t) :
+    ∃ r, recover t = .ok r ∧ r.parts = [] ∧ r.epoch = none ∧ NoLeftovers none r := by
+  obtain ⟨r, h1, h2, h3, h4⟩ := recoverWith_treeOK0 true h
+  exact ⟨r, h1, h2, h3, h4 rfl⟩
 
 end Banyan.C04
